@@ -26,7 +26,8 @@ class Oracle:
 
     def applies(self, rec):
         o = rec.get("opts", {})
-        return not o.get("frozen") and o.get("do_not_copy") is not True
+        # (a class declared do_not_copy=True is edited in place by design; a subclass that does not restate that is not)
+        return not o.get("frozen") and (o.get("do_not_copy") is not True or bool(o.get("sub_inherits_policy")))
 
     def profile(self, rec):
         P = {"raising": True, "invalid": True, "ctor": False}
@@ -120,6 +121,10 @@ def tasks_for(run, module, prop, quick_depth=2, thorough_depth=3, lf_quick=0, lf
                           "line_fault_depth": lf_quick if quick else lf_thorough, "inits": 2, "max_states": 1500 if quick else 6000})
     if prop in ("C04",):
         for rec in G.validated_item_records() + G.failing_invalidation_records() + G.empty_state_records() + G.dnc_class_records():
+            tasks.append({"rec": rec, "depth": 2, "module": module, "prop": prop, "tier": run.tier,
+                          "line_fault_depth": 0, "inits": 2, "max_states": 800})
+    if prop in ("C01",):
+        for rec in G.dnc_parent_records():
             tasks.append({"rec": rec, "depth": 2, "module": module, "prop": prop, "tier": run.tier,
                           "line_fault_depth": 0, "inits": 2, "max_states": 800})
     if prop in ("C01", "C04"):
